@@ -216,6 +216,10 @@ def exit_condition_case(kind):
     try:
         with open(os.path.join(d, 'jugfile.py'), 'w') as f:
             f.write(JUGFILE.replace('%(n)d', '4'))
+        if kind.endswith('+barrier'):
+            # a jugfile with a barrier: `jug execute` reloads it in passes; an exit condition ends the worker all the same
+            open(os.path.join(d, 'with-barrier'), 'w').close()
+            kind = kind[:-len('+barrier')]
         common = ['--will-cite', '--nr-wait-cycles', '2', '--wait-cycle-time', '0']
         env = {}
         stopfile = None
@@ -261,6 +265,7 @@ def exit_condition_family(run, kinds):
         run.case(('proc-exit-condition', kind), nontrivial=True)
         run.count('process_mode_exit_condition_cases')
         n1 = len(obs['ended1'])
+        kind = kind.replace('+barrier', '')
         if kind.startswith('stop-file') and (n1 != 0 or obs['begun1']):
             run.fail('stop-file-ignored', 'exit condition %s: the stop file existed before the worker started, yet it ran tasks %s (exit status %s)' % (kind, obs['begun1'], obs['rc1']), rp)
         if kind == 'max-tasks' and n1 != 2:
